@@ -101,6 +101,12 @@ class Concretizer:
         td = v.tdef
         names = [x.name for x in td.variants]
         allowed = v.variants if v.variants is not None else names
+        if v.disc is not None:
+            # the solver model fixes the variant even though the path never inspected it
+            k = self.ev(v.disc)
+            var = td.variants[k]
+            vals = [self.default_of_type(f.ty, v.targs, td.crate) for f in var.fields]
+            return EnumV(td.name, var.name, vals, [f.name for f in var.fields] if var.kind == "struct" else None)
         # prefer a unit variant
         for var in td.variants:
             if var.name in allowed and not var.fields: return EnumV(td.name, var.name, [], [] if var.kind == "struct" else None)
